@@ -454,7 +454,7 @@ CONTRACTS += [DumpSimulation(), RestoreSimulation()]
 
 def _c19_probes(self, case):
     return [{"callee": self.name, "script": "import sys; sys.path.insert(0, '/verif/native')\nimport c19_replay\noutcome = c19_replay.run(call['scenario'])\n",
-             "scenario": sc} for sc in ("trailing-empty-group", "round-trip", "no-group-entity")]
+             "scenario": sc} for sc in ("trailing-empty-group", "round-trip", "no-group-entity", "restore-twice")]
 
 
 for _c in CONTRACTS:
@@ -462,3 +462,15 @@ for _c in CONTRACTS:
     if not hasattr(type(_c), "judge_native"):
         type(_c).judge_native = RestoreEntity.judge_native
         type(_c).call_descriptor = RestoreEntity.call_descriptor
+
+
+def PROPERTY_PROBES():
+    """scenarios through the whole dump / restore path, for failing-input searches when a case of any contract serving C19 cannot be generated"""
+    script = "import sys; sys.path.insert(0, '/verif/native')\nimport c19_replay\noutcome = c19_replay.run(call['scenario'])\n"
+
+    def judge(nat):
+        if nat.get("kind") != "return":
+            return "violates", "scenario raised " + nat.get("exc", "?") + ": " + nat.get("msg", "")
+        return ("satisfies", "ok") if nat["value"]["ok"] else ("violates", "; ".join(nat["value"]["detail"])[:600])
+    return [({"callee": "dump_simulation / restore_simulation", "script": script, "scenario": sc}, judge)
+            for sc in ("round-trip", "restore-twice", "trailing-empty-group", "no-group-entity")]
